@@ -857,3 +857,44 @@ def r14_hull_needs_constant_sign_of_w(ck, P, rid='C04-R14'):
         ck.ok(R, '%s: the sign of w is carried from corner to corner and compared' % f.name)
     else:
         ck.violation(R, f.name, 'sign of w compared across corners', '%s does not compare the sign of the homogeneous coordinate of a corner with the sign at the previous corner: a request across which w changes sign is bounded by the hull of its corners although its interior maps outside it' % f.name, wloads[0].loc())
+
+
+def r15_empty_image_not_addressed_directly(ck, P, rid='C04-R15'):
+    """T-PATH: every fast path and every covering iterator requires FAST_PATH_NO_ACCESSORS of an image whose pixels it addresses itself.
+    Under 'bits image, no accessors, width (height) = 0' the flag computation cannot reach the store of the flags word except through a
+    block that clears that flag - an image without pixels has none that could be addressed."""
+    from .. import consts
+    R = ck.rule(rid, 'in the function that computes image_common.flags, with the assumptions "bits image without accessors whose width (then: height) is 0", every path to the store of the flags word passes through a block that clears FAST_PATH_NO_ACCESSORS: the fast paths and covering iterators, all of which require that flag, address pixels of their source without testing that there is one', floor=2)
+    C = consts.fast_path_flags()
+    NOACC = C['FAST_PATH_NO_ACCESSORS']
+    f = None
+    for h in P.functions():
+        if any(x.op == 'store' and h.last_field(h.path(x.a[1])) == 'image_common.flags' for x in h.insts()) and any(x.op == 'store' and h.last_field(h.path(x.a[1])) == 'image_common.extended_format_code' for x in h.insts()):
+            f = h
+    if f is None:
+        raise AnalysisBroken('%s: the function that computes image_common.flags was not found' % rid)
+    ck.saw(f)
+    stores = {x.bb.id for x in f.insts() if x.op == 'store' and f.last_field(f.path(x.a[1])) == 'image_common.flags'}
+    clears = {x.bb.id for x in f.insts() if x.op == 'and' and any(a[0] == 'c' and (~int(a[1]) & 0xffffffff) & NOACC for a in x.a)}
+    if not clears:
+        raise AnalysisBroken('%s: no block clearing FAST_PATH_NO_ACCESSORS found in %s' % (rid, f.name))
+    BITS = P.enum('image_type_t')['BITS']
+    for dim in ('width', 'height'):
+        def known(x, dim=dim):
+            if x.op == 'load':
+                lf = f.last_field(f.path(x.a[0]))
+                if lf == 'bits_image.' + dim:
+                    return 0
+                if lf in ('bits_image.read_func', 'bits_image.write_func'):
+                    return 0
+                if lf in ('image_common.type', 'bits_image.type') or (lf is None and not f.path(x.a[0])[1] and x.ty == 'i32' and f.root(f.path(x.a[0]))[0] == 'arg'):
+                    return BITS
+            return None
+        hit = common.reach_under(f, known, stores, avoid=clears - stores)
+        # a clear in the storing block itself counts as passed
+        hit = {b for b in hit if b not in clears}
+        where = '%s: bits image without accessors, %s == 0' % (f.name, dim)
+        if hit:
+            ck.violation(R, f.name, 'empty image keeps NO_ACCESSORS (%s == 0)' % dim, '%s can store the flags of a bits image whose %s is 0 without having cleared FAST_PATH_NO_ACCESSORS: the scaled and covering fast paths then address pixels of an image that has none (the 0-wide source of a scaled bilinear composite writes one pixel past the destination span and reads src[0] / src[-1])' % (f.name, dim), '%s:%d' % (f.unit.name, f.line))
+        else:
+            ck.ok(R, where, 'FAST_PATH_NO_ACCESSORS cleared on every path')
